@@ -22,7 +22,7 @@
    PART 3 mirrors the grouping of mocks into output files (internal/cmd/mockery.go:
    mockFileToInterfaces keyed by the cleaned output file path, one entry appended per
    (interface, configs entry); Generate renders one mock type per element).            *)
-From Mk Require Import Lib.Bytes Gen.Alloc Gen.Types Gen.Render.
+From Mk Require Import Lib.Bytes Lib.Fresh Gen.Alloc Gen.Types Gen.Render.
 
 (* ==================================================================================== *)
 (* PART 1 - method sets                                                                  *)
@@ -350,6 +350,61 @@ Definition api_free (t : tmpl) (with_resets : bool) (names : list str) : bool :=
    enumerates the completed method set, TRUSTED to be [method_set] *)
 Definition mock_iface (name sname : str) (tps : items ty) (ms : list meth) : iface :=
   {| if_name := name; if_struct := sname; if_tparams := tps; if_methods := map (fun m => (m_name m, m_sig m)) ms |}.
+
+(* ------------------------------------------------------------------------------------ *)
+(* PART 2b - the type parameter list of the mock type                                      *)
+(* internal/template_generator.go typeParams (WITH fixes/c02-blank-type-params.diff): every
+   type parameter goes through MethodScope.AddVar (Gen/Render.v add_var: the constraint's
+   imports and type string become visible, the name is SuggestName(varName)); a BLANK
+   parameter `_` then gets the first of  n, n1, n2, ...  (n = the name AddVar generated from
+   the constraint) whose PRINTED form Exported(name) is neither the printed form of a
+   declared parameter name, nor that of a name already given to an earlier blank parameter,
+   nor a name visible in the scope (a constraint spelled as a bare identifier).  The
+   templates print Exported(name) in the parameter list and in every instantiation of the
+   mock type. *)
+Fixpoint tp_search (ex : str -> str) (bad : list str) (base : str) (fuel i : nat) : option str :=
+  match fuel with
+  | 0 => None                                     (* excluded by tp_search_total *)
+  | S f => let c := cand 1 base i in
+           if smem (ex c) bad then tp_search ex bad base f (S i) else Some c
+  end.
+Definition tp_pick (ex : str -> str) (bad : list str) (base : str) : option str :=
+  tp_search ex bad base (S (length bad)) 0.
+
+Definition last_name (vs : list var_) : str := last (map vname vs) [].
+
+Section TParams.
+  Variable cx : ctx.
+  Let ex := cx_exported cx.
+
+  Fixpoint tp_names (taken : list str) (st : vstate) (tps : items ty) : option (list str) :=
+    match tps with
+    | [] => Some []
+    | x :: r =>
+        let st' := add_var cx st x in
+        let n0 := last_name (snd st') in
+        let isb := blank (lname (fst x)) in
+        match (if isb then tp_pick ex (taken ++ snd (fst st')) n0 else Some n0) with
+        | None => None
+        | Some n =>
+            match tp_names (if isb then ex n :: taken else taken) st' r with
+            | Some l => Some (n :: l)
+            | None => None
+            end
+        end
+    end.
+
+  Definition declared_names (tps : items ty) : list str :=
+    map (fun x => lname (fst x)) (filter (fun x => negb (blank (lname (fst x)))) tps).
+
+  (* the names offered for the type parameters of one mock: [r] is the file's registry when
+     Generate reaches the type parameters of the interface (after its methods) *)
+  Definition mock_tparams (r : registry) (tps : items ty) : option (list str) :=
+    tp_names (map ex (declared_names tps)) (r, new_scope r, []) tps.
+  (* as printed: `type Mock[<printed> <constraint>, ...]`, `*Mock[<printed>, ...]` *)
+  Definition printed_tparams (r : registry) (tps : items ty) : option (list str) :=
+    option_map (map ex) (mock_tparams r tps).
+End TParams.
 
 (* ==================================================================================== *)
 (* PART 3 - grouping of mocks into output files (internal/cmd/mockery.go)                *)
